@@ -112,6 +112,10 @@ int main(int argc, char* const* argv)
 {
     pipe_in = !isatty(fileno(stdin)) || std::getenv("DEBUG_SET_PIPE_IN");
     pipe_out = !isatty(fileno(stdout)) || std::getenv("DEBUG_SET_PIPE_OUT");
+#ifdef BTCDEB_VERIF
+    // verification hook: scripted REPL -- take the interactive path with commands arriving on a pipe
+    if (std::getenv("BTCDEB_VERIF_REPL")) pipe_in = pipe_out = false;
+#endif
     if (pipe_in || pipe_out) btc_logf = btc_logf_dummy;
 
     cliargs ca;
@@ -365,6 +369,9 @@ int main(int argc, char* const* argv)
         kerl_set_completor("exec", compl_exec, true);
         kerl_set_completor("tf", compl_tf, false);
         kerl_register("print", fn_print, "Print script.");
+#ifdef BTCDEB_VERIF
+        kerl_register("vdump", fn_vdump, "Verification hook: dump the session state as one JSON line.");
+#endif
         kerl_register_help("help");
         if (!quiet) btc_logf("%d op script loaded. type `help` for usage information\n", count);
         print_dualstack();
